@@ -711,7 +711,76 @@ Definition simple_view (p : profile) (s : server_ep) (f : link_fields) : sprofil
              (match p_tp p with Some t => negb (is_empty (tp_raw t)) | None => false end)
              (map binding_view (se_bindings s)).
 
+(* ---------------------------------------------------------------- operation histories on the server file
+   One process, one configuration file.  The state is what the file holds (None = no file).  Every entry point
+   that reads the configuration reads the file (LoadServerConfig); every one that changes it goes through
+   StoreServerConfig.  Nothing else is remembered between operations: a cache that could answer something
+   different from the file is a divergence from this model. *)
+
+Inductive sop :=
+| OpApply (patch : server_cfg)        (* ApplyJSONServerConfig of well-formed JSON *)
+| OpApplyMalformed                    (* ApplyJSONServerConfig of text protojson rejects *)
+| OpLoad                              (* LoadServerConfig *)
+| OpGetJSON                           (* GetJSONServerConfig *)
+| OpStore (c : server_cfg)            (* StoreServerConfig (also the SetConfig RPC) *)
+| OpDelete (names : list bytes).      (* DeleteServerUsers *)
+
+Inductive sout :=
+| Accepted (obs : option server_cfg)  (* what was returned (reads) or written (writes) *)
+| Rejected (code : N).                (* an error was returned; 100 malformed, 101 no file, else validator code *)
+
+Definition is_rejected (o : sout) : bool := match o with Rejected _ => true | Accepted _ => false end.
+
+Definition delete_users (names : list bytes) (us : list user) : list user :=
+  filter (fun u => negb (mem_bytes (uname u) names)) us.
+
+Definition with_users (c : server_cfg) (us : list user) : server_cfg :=
+  mkServer (s_ports c) us (s_adv c) (s_log c) (s_mtu c) (s_egress c) (s_dns c) (s_tp c).
+
+Definition step (H : bytes -> bytes) (s : option server_cfg) (o : sop) : option server_cfg * sout :=
+  match o with
+  | OpApplyMalformed => (s, Rejected 100)
+  | OpApply p =>
+      let e := validate_server_patch p in
+      if negb (N.eqb e 0) then (s, Rejected e)
+      else match s with
+           | None => (s, Rejected 101)
+           | Some old =>
+               let m := merge_server old p in
+               let e2 := validate_full_server m in
+               if negb (N.eqb e2 0) then (s, Rejected e2)
+               else let w := store_server H m in (Some w, Accepted (Some w))
+           end
+  | OpLoad | OpGetJSON =>
+      (s, match s with Some c => Accepted (Some c) | None => Rejected 101 end)
+  | OpStore c => let w := store_server H c in (Some w, Accepted (Some w))
+  | OpDelete names =>
+      match s with
+      | None => (s, Rejected 101)
+      | Some old => let w := store_server H (with_users old (delete_users names (s_users old))) in
+                    (Some w, Accepted (Some w))
+      end
+  end.
+
+(* final state and the outputs of a whole history *)
+Fixpoint run_outs (H : bytes -> bytes) (s : option server_cfg) (h : list sop) : option server_cfg * list sout :=
+  match h with
+  | [] => (s, [])
+  | o :: t => let '(s1, x) := step H s o in
+              let '(sf, xs) := run_outs H s1 t in (sf, x :: xs)
+  end.
+
+(* ---------------------------------------------------------------- first use of a user name downstream
+   cipher.addUserHintToNonce / cipher.CheckUserFromHint: the name and the nonce prefix are copied into a
+   [MaxUserNameLen + NoncePrefixLenForUserHint]byte array; a name longer than MaxUserNameLen BYTES panics
+   (CheckUserFromHint also panics on the empty name). *)
+Definition hint_input (name prefix : bytes) : outcome bytes :=
+  if Z.eqb (blen name) 0 then Panic
+  else if Z.ltb C20_MaxUserNameLen (blen name) then Panic
+  else Ok (firstn (Z.to_nat (C20_MaxUserNameLen + NoncePrefixLenForUserHint)) (name ++ prefix)).
+
 (* toy instance of H for the executable runner: tag 256 (not a byte) in front of the pre-image *)
 Definition toy_hash (x : bytes) : bytes := 256%N :: x.
 Definition store_server_toy := store_server toy_hash.
 Definition store_client_toy := store_client toy_hash.
+Definition step_toy := step toy_hash.
